@@ -340,7 +340,10 @@ theorem gcd_fuel (g : Nat) (hg : 128 ≤ g) {a b : Nat} (ha : a < 2 ^ 64) (hb : 
 
 theorem gcd {a b : Nat} (ha : a < 2 ^ 64) (hb : b < 2 ^ 64) :
     go_auxmath_Gcd a b = Auxmath.gcd a b :=
-  gcd_fuel 99999 (by decide) ha hb
+by
+  have h := gcd_fuel (loopFuel - 1) (by decide) ha hb
+  rw [show loopFuel - 1 + 1 = loopFuel by decide] at h
+  exact h
 
 /-! ### 7. binfield: `bitProd`, `bitQuoRem`, `Element.reduce` -/
 
